@@ -7,7 +7,8 @@ from hypothesis import strategies as st
 
 from vf.harness import Check
 from vf.gen import lens as GL
-from vf.gen.build import build
+from vf.gen.build import build, used_optic
+from vf.gen.edit import edit_strategy, apply_edit
 
 LAUNCH = GL.Profile(max_surfs=6, shapes=['standard'], allow_vignetting=True, keep_edges=True, rho_min=1.5,
                     steep_prob=0.1, max_field_deg=25.0, negative_fields=True)
@@ -44,7 +45,9 @@ class C03(Check):
 
     def strategy(self, tier):
         launch = st.fixed_dictionaries(dict(kind=st.just('launch'), spec=GL.lens_spec(LAUNCH), rays=rays_strategy(),
-                                            wl=st.integers(0, 3)))
+                                            wl=st.integers(0, 3),
+                                            edit=edit_strategy(('index', 'radius', 'thickness', 'stop'), p_none=2),
+                                            reuse=st.sampled_from([False, False, True])))
         dist = st.fixed_dictionaries(dict(kind=st.just('dist'), name=st.sampled_from(DISTS), n=st.integers(1, 64),
                                           vx=st.sampled_from([0.0, 0.0, 0.1, 0.35]),
                                           vy=st.sampled_from([0.0, 0.0, 0.2, 0.5]), seed=st.integers(0, 2 ** 16)))
@@ -109,7 +112,7 @@ class C03(Check):
             label = '%s/%s/%s/%s' % (ap_type, ftype, 'tele' if tele else 'nontele', 'finite' if finite else 'inf')
             nt = self.check_variant(out, v, valid, case['rays'], w, label, stated_invalid=(
                 (ftype == 'object_height' and not finite) or (tele and not finite) or
-                (tele and ap_type in ('EPD', 'imageFNO'))))
+                (tele and ap_type in ('EPD', 'imageFNO'))), edit=case.get('edit'), reuse=case.get('reuse', False))
             any_nt = any_nt or nt
         out.nt(any_nt)
 
@@ -120,8 +123,22 @@ class C03(Check):
         v['ap'] = dict(type='EPD', value=epd)
         return GL.set_aperture_kind(v, ap_type)
 
-    def check_variant(self, out, v, valid, rays, w, label, stated_invalid):
-        o = build(v)
+    def check_variant(self, out, v, valid, rays, w, label, stated_invalid, edit=None, reuse=False):
+        # the lens on a new Optic, or on an Optic that held another lens and was reset()
+        o = build(v, optic=used_optic()) if reuse else build(v)
+        if reuse:
+            out.cls('optic_reset_and_reused')
+        nt = self.judge(out, o, v, valid, rays, w, label, stated_invalid)
+        if valid and edit:
+            # history on one Optic: launch, edit through the public setters, launch again; the pupil the rays are aimed
+            # at is the pupil of the *edited* prescription
+            v2 = apply_edit(o, v, edit)
+            if v2 is not None:
+                out.cls('relaunched_after_' + edit['kind'] + '_edit')
+                self.judge(out, o, v2, True, rays, w, label, False)
+        return nt
+
+    def judge(self, out, o, v, valid, rays, w, label, stated_invalid):
         ps = GL.parax_sys(v)
         Hy = np.array([r[0] for r in rays], dtype=float)
         Px = np.array([r[1] for r in rays], dtype=float)
